@@ -40,6 +40,40 @@ func paramName(f *ssa.Function, i int) string {
 }
 
 // frameChecks applies the E2 rules to every exported function of pkg.
+// pooledResults: no module function may hand out (return) memory of an object it has given back to a sync.Pool
+// (also through a deferred Put): whoever takes the object from the pool next writes into what the caller still reads.
+func pooledResults(p *load.Prog, a *effects.Analysis, r *report.Report, prop string) {
+	pools := map[string]bool{}
+	for _, sp := range p.ModSSA {
+		for _, m := range sp.Members {
+			if g, ok := m.(*ssa.Global); ok {
+				t := g.Type().(*types.Pointer).Elem()
+				if strings.HasSuffix(t.String(), "sync.Pool") {
+					pools["G:"+g.Pkg.Pkg.Path()+"."+g.Name()] = true
+				}
+			}
+		}
+	}
+	n := 0
+	for _, f := range p.ModFuncs() {
+		sum := a.Sums[f]
+		if sum == nil {
+			continue
+		}
+		for i, ret := range sum.Ret {
+			for k := range ret {
+				if pools[k] {
+					n++
+					r.Fail(prop+".pooluse", fmt.Sprintf("%s result %d", f.Name(), i), p.Pos(f.Pos()), "the result shares memory with an object the function hands back to the pool "+strings.TrimPrefix(k, "G:")+": the next call that takes the object from the pool overwrites what this call's caller still reads (use after Put)")
+				}
+			}
+		}
+	}
+	if len(pools) > 0 && n == 0 {
+		r.OK(prop+".pooluse", "pooled objects", fmt.Sprintf("%d pool(s): no function returns memory of an object it puts back", len(pools)))
+	}
+}
+
 func frameChecks(p *load.Prog, a *effects.Analysis, pkg *ssa.Package, r *report.Report, o frameOpts) (nfuncs int) {
 	api := p.ExportedAPIOf(pkg)
 	for _, f := range api {
